@@ -27,6 +27,7 @@ import PynetVerif.Driver.Pair
 import PynetVerif.Driver.Pause
 import PynetVerif.Driver.Life
 import PynetVerif.Driver.Wake
+import PynetVerif.Driver.Bind
 open PynetVerif
 
 /-- Each model contributes `String → List SExp → Option SExp` (none = not my op). -/
@@ -58,7 +59,8 @@ def handlers : List (String → List SExp → Option SExp) :=
    Driver.pairOps,
    Driver.pauseOps,
    Driver.lifeOps,
-   Driver.wakeOps]
+   Driver.wakeOps,
+   Driver.bindOps]
 
 def handle (e : SExp) : SExp :=
   match e with
